@@ -374,10 +374,21 @@ func realEncryptFile(tape []byte, recs []age.Recipient, segs [][]byte, armored b
 
 // realDecryptFile decrypts to the end; returns canonical observation pieces.
 func realDecryptFile(file []byte, ids []age.Identity, armored bool) (out []byte, class string, consulted int) {
+	// THE observation is made with the identity values as they are (a wrapper would hide optional interfaces the
+	// library may look for); a second run with counting wrappers only tells how many identities were consulted
+	out, class, _ = realDecryptFileWith(file, ids, armored, false)
+	_, _, consulted = realDecryptFileWith(file, ids, armored, true)
+	return out, class, consulted
+}
+
+func realDecryptFileWith(file []byte, ids []age.Identity, armored bool, counting bool) (out []byte, class string, consulted int) {
 	n := 0
-	var wrapped []age.Identity
-	for _, id := range ids {
-		wrapped = append(wrapped, countingIdentity{id, &n})
+	wrapped := ids
+	if counting {
+		wrapped = nil
+		for _, id := range ids {
+			wrapped = append(wrapped, countingIdentity{id, &n})
+		}
 	}
 	var src io.Reader = bytes.NewReader(file)
 	if armored {
